@@ -22,8 +22,8 @@ ASSUMPTIONS = ['for invalid (self-touching) region polygons the code clips with 
                'containment predicates use a 1e-6 buffer; "unchanged" = same point sequence (1e-6) for the baseline and equal shape for an outline that lies inside the region',
                'regions handed to the helper have unique ids']
 N = {'quick': 2000, 'thorough': 60000}
-CLASSES = ['rect', 'concave', 'bowtie', 'nested', 'overlapping', 'mixed', 'mixed', 'edge_touching', 'extractor', 'simple_extractor']
-REQUIRED = ['suffixed_passes', 'bent_lines_placed', 'pocket_lines_checked', 'helper_calls', 'pairs_checked', 'placed_lines', 'inside_lines_placed_unchanged', 'not_touching_pairs', 'multi_entry_lines', 'invalid_region_pairs',
+CLASSES = ['rect', 'concave', 'bowtie', 'nested', 'overlapping', 'mixed', 'mixed', 'edge_touching', 'extractor', 'simple_extractor', 'integer_grid']
+REQUIRED = ['integer_grid_pages', 'redistributions_after_outline_change', 'suffixed_passes', 'bent_lines_placed', 'pocket_lines_checked', 'helper_calls', 'pairs_checked', 'placed_lines', 'inside_lines_placed_unchanged', 'not_touching_pairs', 'multi_entry_lines', 'invalid_region_pairs',
             'extractor_pages', 'multi_orientation_line_only_pages', 'simple_extractor_pages', 'simple_extractor_concave_pages']
 SHARDS = {'quick': 8, 'thorough': 16}
 
@@ -80,6 +80,29 @@ def gen(rng, i, ctx):
                 [[[20, 20], [600, 20], [600, 580], [20, 580]], [[600, 20], [780, 20], [780, 580], [600, 580]]]}
     if cls == 'simple_extractor':
         return {'cls': cls, 'seed': int(rng.integers(0, 1 << 30)), 'n_rows': int(rng.integers(1, 6))}
+    if cls == 'integer_grid':
+        # coordinates on a 10-px grid (regions drawn by hand, heights rounded): line outlines whose edges run exactly along region edges
+        regs, lines = [], []
+        for _ in range(int(rng.integers(1, 4))):
+            x0, y0 = [int(v) * 10 for v in rng.integers(0, 40, 2)]
+            w, h = [int(v) * 10 for v in rng.integers(12, 50, 2)]
+            t = w // 3 // 10 * 10
+            yn = y0 + int(h * 0.7) // 10 * 10
+            if rng.random() < 0.5:
+                P = [[x0, y0], [x0 + t, y0], [x0 + t, yn], [x0 + 2 * t, yn], [x0 + 2 * t, y0], [x0 + w, y0], [x0 + w, y0 + h], [x0, y0 + h]]
+            else:
+                P = [[x0, y0], [x0 + t, y0], [x0 + t, yn], [x0 + w, yn], [x0 + w, y0 + h], [x0, y0 + h]]
+            regs.append([[float(a), float(b)] for a, b in P])
+            for _ in range(int(rng.integers(1, 4))):
+                ye = int(rng.choice(sorted({p[1] for p in P})))
+                asc, desc = int(rng.integers(1, 4)) * 10, int(rng.integers(1, 3)) * 5
+                y = ye + asc if rng.random() < 0.5 else ye - desc
+                xa, xb = x0 - int(rng.integers(-5, 8)) * 10, x0 + w + int(rng.integers(-5, 8)) * 10
+                if xb - xa >= 20:
+                    lines.append({'baseline': [[float(xa), float(y)], [float(xb), float(y)]], 'heights': [float(asc), float(desc)], 'kind': 'grid'})
+        if not lines:
+            lines.append({'baseline': [[0.0, 5.0], [50.0, 5.0]], 'heights': [10.0, 5.0], 'kind': 'grid'})
+        return {'cls': cls, 'regions': regs, 'lines': lines, 'region_ids': ['r%d' % k for k in range(len(regs))]}
     kinds = {'rect': ['rect'], 'concave': ['U', 'L', 'comb'], 'bowtie': ['bowtie', 'rect'], 'nested': ['rect'], 'overlapping': ['rect', 'convex'],
              'mixed': ['rect', 'convex', 'U', 'L', 'comb', 'bowtie'], 'edge_touching': ['rect']}[cls]
     regs = [rpoly(rng, str(rng.choice(kinds))) for _ in range(int(rng.integers(1, 5)))]
@@ -206,7 +229,7 @@ def check(case, mon, ctx):
                 really_touches = Preal.buffer(1e-6).intersects(B)
             except Exception:
                 touches = really_touches = None
-            inside = Pv.contains(B) and valid
+            inside = valid and Pv.contains(B) and not Pv.boundary.intersects(B)        # wholly inside: in the interior (a baseline running along an edge of the region is a borderline case the statement does not settle)
             inter = Pv.intersection(B)
             if inter.geom_type == 'MultiLineString':
                 mon.count('multi_entry_lines')
@@ -261,6 +284,26 @@ def check(case, mon, ctx):
                     mon.violation('line-inside-region-always-placed', dict(w, baseline_length=B.length, outline_valid=T.is_valid))
     if nontriv:
         mon.mark_nontrivial()
+    if case['cls'] == 'integer_grid':
+        mon.count('integer_grid_pages')
+    # history on the region objects: their outlines are replaced (re-traced, rotated, moved), their lines removed, and the lines are distributed again -
+    # the result is that of regions built from scratch with the new outlines
+    moved = [np.asarray(r.polygon, dtype=np.float64) * np.array([0.8, 1.1]) + np.array([35.0, -20.0]) for r in out]
+    fresh = [L.RegionLayout(r.id, m.copy()) for r, m in zip(out, moved)]
+    for r, m in zip(out, moved):
+        r.polygon = m.copy()
+        r.lines = []
+    with contextlib.redirect_stdout(io.StringIO()):
+        again = Hh.assign_lines_to_regions([b.copy() for b in bls], hs, [t.copy() for t in tls], out)
+        ref = Hh.assign_lines_to_regions([b.copy() for b in bls], hs, [t.copy() for t in tls], fresh)
+    mon.count('redistributions_after_outline_change')
+    summ = lambda rr: [(r.id, [(l.id, np.round(np.asarray(l.baseline, dtype=np.float64), 6).tolist(), np.round(np.asarray(l.polygon, dtype=np.float64), 6).tolist()) for l in r.lines]) for r in rr]
+    if summ(again) != summ(ref):
+        k = next(i for i, (a, b) in enumerate(zip(summ(again), summ(ref))) if a != b)
+        mon.violation('placed-baseline-inside-region', {'note': 'lines distributed again after the region outlines were replaced: the result differs from that of regions built from scratch with the new outlines',
+                      'region': again[k].id, 'lines_reused_object': [l.id for l in again[k].lines], 'lines_fresh_object': [l.id for l in ref[k].lines]}, mechanism='redistribution-after-outline-change')
+    for r in out:
+        r.lines = []
     # the multi-orientation extractor distributes the lines of each rotated pass to the same regions with an id suffix: all ids stay distinct
     for suffix in ('_1', '_3'):
         with contextlib.redirect_stdout(io.StringIO()):
